@@ -151,15 +151,15 @@ Proof.
     intros Hx; inversion Hx; subst. destruct (as_float_float _ _ H) as [f ->]. reflexivity.
   - (* DComplex *) unfold of_conv. destruct (as_complex v) as [x|[]] eqn:H; try discriminate.
     intros Hx; inversion Hx; subst. destruct (as_complex_complex _ _ H) as (r & i & ->). reflexivity.
-  - (* DStr *) unfold c_coerce; cbn. destruct (isinstance E v cSTR) eqn:H; [|discriminate].
-    intros Hx; inversion Hx; subst. exact H.
-  - (* DBytes *) unfold c_coerce; cbn. destruct (isinstance E v cBYTES) eqn:H; [|discriminate].
-    intros Hx; inversion Hx; subst. exact H.
-  - (* DBool *) unfold c_coerce; cbn. destruct (isinstance E v cBOOL) eqn:H.
-    + intros Hx; inversion Hx; subst. destruct (isinstance_bool E w HB H) as [b ->]. reflexivity.
-    + destruct (isinstance E v cNPBOOL); [|discriminate]. intros Hx; inversion Hx; reflexivity.
-  - (* DModule *) unfold c_coerce; cbn. destruct (isinstance E v cMODULE) eqn:H; [|discriminate].
-    intros Hx; inversion Hx; subst. exact H.
+  - (* DStr *) unfold c_coerce; cbn. destruct (typecheck E v cSTR) eqn:H; [|discriminate].
+    intros Hx; inversion Hx; subst. now apply typecheck_isinstance.
+  - (* DBytes *) unfold c_coerce; cbn. destruct (typecheck E v cBYTES) eqn:H; [|discriminate].
+    intros Hx; inversion Hx; subst. now apply typecheck_isinstance.
+  - (* DBool *) unfold c_coerce; cbn. destruct (typecheck E v cBOOL) eqn:H.
+    + intros Hx; inversion Hx; subst. destruct (typecheck_bool E w HB H) as [b ->]. reflexivity.
+    + destruct (typecheck E v cNPBOOL); [|discriminate]. intros Hx; inversion Hx; reflexivity.
+  - (* DModule *) unfold c_coerce; cbn. destruct (typecheck E v cMODULE) eqn:H; [|discriminate].
+    intros Hx; inversion Hx; subst. now apply typecheck_isinstance.
   - (* DCast *) destruct (class_of v =? cast_cls t) eqn:Hc.
     + intros Hx; inversion Hx; subst. exact Hc.
     + destruct (cast_fn E t v) as [x|e] eqn:Hf; [|discriminate]. intros Hx; inversion Hx; subst.
@@ -175,22 +175,24 @@ Proof.
   - (* DMap *) destruct (hashable v) eqn:Hh; [|discriminate]. destruct (dict_get m v) eqn:Hg; [|discriminate].
     intros Hx; inversion Hx; subst. cbn. rewrite Hh. cbn. rewrite <- dict_get_existsb. now rewrite Hg.
   - (* DTuple *) exfalso. destruct (Hleaf ds) as [H _]. now apply H.
-  - (* DInstance *) destruct allow_none.
-    + destruct (pv_eqb v PNone) eqn:Hv; cbn.
-      * intros Hx; inversion Hx; subst. apply pv_eqb_none in Hv. now subst.
-      * destruct (isinstance E v cls) eqn:Hi; [|discriminate]. intros Hx; inversion Hx; subst.
-        cbn. destruct w; cbn; try exact Hi. discriminate.
-    + cbn. destruct (isinstance E v cls) eqn:Hi; [|discriminate]. intros Hx; inversion Hx; subst.
-      cbn. destruct w; cbn; try exact Hi.
-      unfold isinstance in Hi. cbn in Hi. apply negb_true_iff in Hn. fold cNONE in Hn. congruence.
-  - (* DSelf *) destruct allow_none.
-    + destruct (pv_eqb v PNone) eqn:Hv; cbn.
-      * intros Hx; inversion Hx; subst. apply pv_eqb_none in Hv. now subst.
-      * destruct (isinstance E v (e_self E)) eqn:Hi; [|discriminate]. intros Hx; inversion Hx; subst.
-        cbn. destruct w; cbn; try exact Hi. discriminate.
-    + cbn. destruct (isinstance E v (e_self E)) eqn:Hi; [|discriminate]. intros Hx; inversion Hx; subst.
-      cbn. destruct w; cbn; try exact Hi.
-      unfold isinstance in Hi. cbn in Hi. apply negb_true_iff in Hn. fold cNONE in Hn. congruence.
+  - (* DInstance *)
+    assert (Hii : (if tc then typecheck E v cls else isinstance E v cls) = true -> isinstance E v cls = true)
+      by (destruct tc; [apply typecheck_isinstance | auto]).
+    destruct ((allow_none && pv_eqb v PNone) || (if tc then typecheck E v cls else isinstance E v cls)) eqn:Hc;
+      [|discriminate].
+    intros Hx; inversion Hx; subst. cbn [dom]. destruct (is_none w) eqn:Hnone.
+    + destruct w; try discriminate. destruct allow_none; [reflexivity|]. cbn in Hc. apply Hii in Hc.
+      unfold isinstance in Hc. cbn in Hc. rewrite orb_false_r in Hc.
+      apply negb_true_iff in Hn. fold cNONE in Hn. congruence.
+    + apply orb_true_iff in Hc as [Hc|Hc]; [|now apply Hii].
+      apply andb_prop in Hc as [_ Hc]. apply pv_eqb_none in Hc. subst. discriminate.
+  - (* DSelf *)
+    destruct ((allow_none && pv_eqb v PNone) || typecheck E v (e_self E)) eqn:Hc; [|discriminate].
+    intros Hx; inversion Hx; subst. cbn [dom]. destruct (is_none w) eqn:Hnone.
+    + destruct w; try discriminate. destruct allow_none; [reflexivity|]. cbn in Hc.
+      unfold typecheck in Hc. cbn in Hc. apply negb_true_iff in Hn. fold cNONE in Hn. congruence.
+    + apply orb_true_iff in Hc as [Hc|Hc]; [|now apply typecheck_isinstance].
+      apply andb_prop in Hc as [_ Hc]. apply pv_eqb_none in Hc. subst. discriminate.
   - (* DCallable *) destruct v; cbn; try discriminate;
       try (destruct allow_none; [|discriminate]); intros Hx; inversion Hx; subst; reflexivity.
   - (* DType *) unfold py_type. destruct v; try discriminate.
@@ -594,10 +596,10 @@ Proof.
       intros Hx; inversion Hx; subst; apply as_float_raises; auto; discriminate.
   - (* DComplex *) unfold of_conv. destruct (as_complex v) as [x|[]] eqn:H; try discriminate;
       intros Hx; inversion Hx; subst; apply as_complex_raises; auto; discriminate.
-  - unfold c_coerce; cbn. destruct (isinstance E v cSTR); discriminate.
-  - unfold c_coerce; cbn. destruct (isinstance E v cBYTES); discriminate.
-  - unfold c_coerce; cbn. destruct (isinstance E v cBOOL); [discriminate|]. destruct (isinstance E v cNPBOOL); discriminate.
-  - unfold c_coerce; cbn. destruct (isinstance E v cMODULE); discriminate.
+  - unfold c_coerce; cbn. destruct (typecheck E v cSTR); discriminate.
+  - unfold c_coerce; cbn. destruct (typecheck E v cBYTES); discriminate.
+  - unfold c_coerce; cbn. destruct (typecheck E v cBOOL); [discriminate|]. destruct (typecheck E v cNPBOOL); discriminate.
+  - unfold c_coerce; cbn. destruct (typecheck E v cMODULE); discriminate.
   - (* DCast *) destruct (class_of v =? cast_cls t); [discriminate|]. destruct (cast_fn E t v); discriminate.
   - (* DRangeF *) destruct (as_float v) as [[]|[]] eqn:H; try discriminate;
       try (destruct (in_float_range f lo hi mask =? 1); discriminate);
@@ -608,11 +610,11 @@ Proof.
   - destruct (py_in v vals); discriminate.
   - destruct (hashable v); [|discriminate]. destruct (dict_get m v); discriminate.
   - exfalso. destruct (Hleaf ds) as [H _]. now apply H.
-  - destruct ((allow_none && pv_eqb v PNone) || isinstance E v cls); discriminate.
+  - destruct ((allow_none && pv_eqb v PNone) || (if tc then typecheck E v cls else isinstance E v cls)); discriminate.
   - unfold c_adapt. destruct v; try (destruct allow_none; discriminate);
       destruct (mode =? 0); repeat (match goal with |- context [if ?b then _ else _] => destruct b
                                                   | |- context [match ?x with _ => _ end] => destruct x end); discriminate.
-  - destruct ((allow_none && pv_eqb v PNone) || isinstance E v (e_self E)); discriminate.
+  - destruct ((allow_none && pv_eqb v PNone) || typecheck E v (e_self E)); discriminate.
   - destruct v; try (destruct allow_none; discriminate); cbn; discriminate.
   - unfold py_type. destruct v; try discriminate; [destruct allow_none | destruct (issub E cls0 cls)]; discriminate.
   - unfold py_string. destruct (strx E v); [|discriminate].
@@ -829,14 +831,14 @@ Proof.
       try (match type of H with context [float_as_double ?x] => destruct (float_as_double x) end;
            try discriminate; inversion H; subst; apply pv_eqb_refl).
     destruct c; inversion H; subst. apply pv_eqb_refl.
-  - (* DStr *) unfold c_coerce; cbn. destruct (isinstance E v cSTR); [|discriminate].
+  - (* DStr *) unfold c_coerce; cbn. destruct (typecheck E v cSTR); [|discriminate].
     intros Hx; inversion Hx; apply pv_eqb_refl.
-  - unfold c_coerce; cbn. destruct (isinstance E v cBYTES); [|discriminate].
+  - unfold c_coerce; cbn. destruct (typecheck E v cBYTES); [|discriminate].
     intros Hx; inversion Hx; apply pv_eqb_refl.
-  - (* DBool *) unfold c_coerce; cbn. destruct (isinstance E v cBOOL) eqn:H.
-    + intros Hx; inversion Hx; subst. destruct (isinstance_bool E w HB H) as [b ->]. cbn. apply Bool.eqb_reflx.
-    + destruct (isinstance E v cNPBOOL); [|discriminate]. intros Hx; inversion Hx; apply pv_eqb_refl.
-  - unfold c_coerce; cbn. destruct (isinstance E v cMODULE); [|discriminate].
+  - (* DBool *) unfold c_coerce; cbn. destruct (typecheck E v cBOOL) eqn:H.
+    + intros Hx; inversion Hx; subst. destruct (typecheck_bool E w HB H) as [b ->]. cbn. apply Bool.eqb_reflx.
+    + destruct (typecheck E v cNPBOOL); [|discriminate]. intros Hx; inversion Hx; apply pv_eqb_refl.
+  - unfold c_coerce; cbn. destruct (typecheck E v cMODULE); [|discriminate].
     intros Hx; inversion Hx; apply pv_eqb_refl.
   - (* DCast *) destruct (class_of v =? cast_cls t) eqn:Hc.
     + intros Hx; inversion Hx; subst. apply Z.eqb_eq in Hc. rewrite (exact_class_cast E t w Hc). apply pv_eqb_refl.
@@ -851,10 +853,10 @@ Proof.
   - destruct (hashable v); [|discriminate]. destruct (dict_get m v); [|discriminate].
     intros Hx; inversion Hx; apply pv_eqb_refl.
   - exfalso. destruct (Hleaf ds) as [H _]. now apply H.
-  - destruct ((allow_none && pv_eqb v PNone) || isinstance E v cls); [|discriminate].
+  - destruct ((allow_none && pv_eqb v PNone) || (if tc then typecheck E v cls else isinstance E v cls)); [|discriminate].
     intros Hx; inversion Hx; apply pv_eqb_refl.
   - reflexivity.
-  - destruct ((allow_none && pv_eqb v PNone) || isinstance E v (e_self E)); [|discriminate].
+  - destruct ((allow_none && pv_eqb v PNone) || typecheck E v (e_self E)); [|discriminate].
     intros Hx; inversion Hx; apply pv_eqb_refl.
   - destruct v; try (destruct allow_none; [|discriminate]); cbn; try discriminate;
       intros Hx; inversion Hx; apply pv_eqb_refl.
